@@ -83,7 +83,7 @@ def build_replicas(scn, shared_config=None):
 
                 def factory(sid=sid):
                     def g():
-                        yield ("qcdict", pl.run_qcconfig(cfg, tbl, sid))
+                        yield ("qcdict", pl.run_qcconfig(cfg, tbl, sid, scn.get("user_calls")))
 
                     return g()
 
@@ -91,6 +91,9 @@ def build_replicas(scn, shared_config=None):
             else:
                 r.stream, r.closer = pl.make_stream(fe, tbl)
                 r.config = shared_config if shared_config is not None else pl.build_config(cfg)
+                if scn.get("user_calls") and not getattr(r.config, "_sim_user_calls", False):
+                    r.config.add(pl.user_call_objects(scn["user_calls"]))
+                    r.config._sim_user_calls = True
 
                 def factory(r=r):
                     return r.stream.run(r.config)
